@@ -5,7 +5,7 @@ expansion of workspace callees (return values and &mut out-parameters) by substi
 import re
 
 from .cfg import CFG
-from .expr import (E, UNKNOWN, mk_phi, simplify, subst, callee_key, walk, find,
+from .expr import (E, UNKNOWN, DEFAULT, mk_phi, simplify, subst, callee_key, walk, find,
                    IDENT_ARG, IDENT_TRAIT_METHODS, ARITH_TRAITS, ASSIGN_TRAITS, CMP_METHODS)
 from .ir import strip_generics
 
@@ -544,8 +544,10 @@ class World:
         memo[key] = (e, r)
         return r
 
-    def _ok_alts(self, inner, which, depth, expand_ws):
-        """alternatives of `inner` that can be the Ok/Some payload"""
+    def _ok_alts(self, inner, which, depth, expand_ws, tagged=False):
+        """alternatives of `inner` that can be the Ok/Some payload; with tagged=True returns
+        (expr, is_payload) pairs: is_payload False means the alternative is still the
+        wrapper value (an opaque Option/Result expression)"""
         if inner.op == "call" and expand_ws and depth < 8:
             b = self.callee_body(inner)
             if b is not None and b.is_fn():
@@ -557,27 +559,36 @@ class World:
                 continue
             if a.op == "adt" and a.info[1] in ("Ok", "Err", "Some", "None") and a.info[0].split("::")[-1] in ("Result", "Option"):
                 if (which == "ok" and a.info[1] == "Ok") or (which == "some" and a.info[1] == "Some"):
-                    keep.append(a.args[0])
+                    keep.append((a.args[0], True))
                 continue
             if a.op == "phi" or (a.op == "call" and self.callee_body(a) is not None and expand_ws and depth < 8):
-                keep.extend(self._ok_alts(a, which, depth + 1, expand_ws))
+                keep.extend(self._ok_alts(a, which, depth + 1, expand_ws, True))
                 continue
-            keep.append(a)
-        return keep
+            keep.append((a, False))
+        return keep if tagged else [k for k, _ in keep]
 
     def _ident(self, e, depth, expand_ws):
         if depth > 40:
             return e
         op = e.op
         if op == "proj" and e.info in ("ok", "some"):
-            keep = self._ok_alts(e.args[0], e.info, depth, expand_ws)
+            keep = self._ok_alts(e.args[0], e.info, depth, expand_ws, True)
             if not keep:
                 return e
             ids = []
-            for a in keep:
+            for a, is_payload in keep:
                 i = self.ident(a, depth + 1, expand_ws)
+                if not is_payload and i is not a and i.op in ("phi", "adt"):
+                    # the wrapper resolved to explicit Option/Result values: project again
+                    for j in self._ok_alts(i, e.info, depth + 1, expand_ws):
+                        jj = self.ident(j, depth + 1, expand_ws)
+                        if jj not in ids:
+                            ids.append(jj)
+                    continue
                 if i not in ids:
                     ids.append(i)
+            if not ids:
+                return e
             return ids[0] if len(ids) == 1 else mk_phi(ids)
         if op == "call":
             k = e.info
@@ -585,6 +596,12 @@ class World:
                 return self.ident(e.args[IDENT_ARG[k]], depth + 1, expand_ws)
             if k == "vec!":
                 return e
+            if k in ("std::option::Option::unwrap_or_default", "std::result::Result::unwrap_or_default") and e.args:
+                which = "some" if "Option" in k else "ok"
+                return self.ident(mk_phi([simplify(E("proj", (e.args[0],), which)), DEFAULT]), depth + 1, expand_ws)
+            if k == "std::option::Option::unwrap_or" and len(e.args) == 2:
+                # selecting: the payload of arg0 when present, arg1 otherwise
+                return self.ident(mk_phi([simplify(E("proj", (e.args[0],), "some")), e.args[1]]), depth + 1, expand_ws)
             if expand_ws and depth < 8:
                 b = self.callee_body(e)
                 if b is not None and b.is_fn():
